@@ -33,7 +33,17 @@ run_set main || rc=$?
 case $PID in C02|C03|C04|C05|C06|C07|C08|C09|C11|C12|C13|C14|C15|C16)
   run_set v3 --no-default-features --features v3pub_set || rc=$? ;;
 esac
-if [ $rc -ne 0 ]; then echo "REPLAY-BUILD-OR-RUN-FAILED rc=$rc"; grep -E "^error" -A6 $D/err_main.log $D/err_v3.log 2>/dev/null | head -30; fi
+if [ $rc -ne 0 ]; then echo "REPLAY-BUILD-OR-RUN-FAILED rc=$rc"; grep -E "^error" -A6 $D/err_main.log $D/err_v3.log 2>/dev/null | head -30
+  python3 - $D <<'PY'
+import json,sys,glob,os
+n=0
+for f in glob.glob(os.path.join(sys.argv[1],"build_*.json")):
+    for l in open(f):
+        try: m=json.loads(l)
+        except Exception: continue
+        if m.get("reason")=="compiler-message" and m["message"]["level"]=="error" and n<5: print(m["message"]["rendered"][:600]); n+=1
+PY
+fi
 if [ "$REPO" != "/repo" ]; then
   # scratch copy: remove what was built for it (harness + the path dependency at that path)
   python3 - $D rp_replay_$H "$REPO" <<'PY'
